@@ -38,7 +38,10 @@ func NewLeafReduce(leafExecuteCtx *context.LeafExecuteContext, executeCtx *flow.
 
 // Execute executes aggregate down sampling result set after all down sampling operators completed.
 func (op *leafReduce) Execute() error {
-	if op.executeCtx.PendingDataLoadTasks.Load() == 0 {
+	// NOTE: all data load stages(one for each time segment) share the data load context and execute concurrently,
+	// when the last data load tasks of two stages complete at the same time both stages find no pending task,
+	// only one of them can reduce the result, otherwise the same aggregators are reduced twice.
+	if op.executeCtx.PendingDataLoadTasks.Load() == 0 && op.executeCtx.Reduced.CompareAndSwap(false, true) {
 		// after load, need to reduce the aggregator's result to query flow.
 		op.executeCtx.Reduce(op.leafExecuteCtx.ReduceCtx.Reduce)
 	}
